@@ -323,7 +323,7 @@ class JSONGrammar(BaseGrammar):
         """
         self.__schema_builder.add_schema(schema, not merge)
         self.__init_dependencies()
-        self._required_names |= self.__schema_builder.required
+        self._required_names |= set(schema.get("required", ()))
         self.__schema_builder.required.clear()
 
     def to_file(self, path: Path | str = "") -> None:
